@@ -5,7 +5,7 @@ HERE = os.path.dirname(os.path.abspath(__file__))
 INV = ["Efficiency", "FaultAtomic", "LockStep", "RunningStatistic", "VarNonNegative", "ContributionDefinition",
        "ChainEndsAtModelLoss", "BudgetOnExplained", "FirstCallNoModel", "FirstCallSeedsOnly", "StoreOnce",
        "NeverOwnBackground"]
-PROPS = ["StoreAfterExplanation", "SeenCountsReturns"]
+PROPS = ["StoreAfterExplanation", "SeenCountsReturns", "CommitIsLinear"]
 BASE = dict(Mode='"sage"', D=2, NInner=2, Kind='"es"', Alpha="A_1_2", StoreKind='"interval"', Cap=2,
             Strategy='"joint"', NOver=0, ModelKind='"scalar"', CommitEarly="FALSE", MaxCalls=3, MaxFaults=1, AllowNoUpd="FALSE")
 CONFIGS = {
